@@ -2,6 +2,7 @@ import FeatModel.Model.Proto
 import FeatModel.Model.Partition
 import FeatModel.Model.PartitionRefine
 import FeatModel.Model.PartitionSplit
+import FeatModel.Model.PartiIterative
 /-! line-protocol driver for the C12 models (patch extraction, halos, neighbour ranks, Parti2Lvl) -/
 open FeatModel FeatModel.Proto FeatModel.Adj FeatModel.Parti
 open FeatModel.Refine (Kind Part)
@@ -135,6 +136,33 @@ def handle : P String := do
             " ".intercalate (["K"] ++ ts ++ ["H", toString hs.length] ++ hs)
           " ".intercalate (["P", toString nc] ++ kids)
         pure (" ".intercalate (["HS", toString p.nDom] ++ parents))
+  | "idist" =>
+    let sh ← tok
+    match dimOf sh with
+    | none => throw s!"unknown shape {sh}"
+    | some D =>
+      let _np ← nat; let start ← nat; let thr ← nat
+      let m ← meshP D
+      match FeatModel.Refine.neighbors (asRefine (kindOf sh) m []) with
+      | none => pure "ABORT"
+      | some nb => pure s!"D {showNatsL (iterDistance nb m.numCells thr start)}"
+  | "iterc" =>
+    let sh ← tok
+    match dimOf sh with
+    | none => throw s!"unknown shape {sh}"
+    | some D =>
+      let _seed ← nat; let np ← nat; let thr ← nat
+      let cen ← natList
+      let m ← meshP D
+      match FeatModel.Refine.neighbors (asRefine (kindOf sh) m []) with
+      | none => pure "ABORT"
+      | some nb =>
+        if np == 0 || m.numCells < np then pure "ABORT"
+        else
+          let cs := Graph.sortList cen
+          match iterIndividual nb m.numCells thr cen with
+          | none => pure s!"IC {showNatsL cs} UNINIT {showNatsL (unassigned (assignItems nb m.numCells thr cs))}"
+          | some rows => pure (" ".intercalate (["IC", showNatsL cs, "R", toString rows.length] ++ rows.map showNatsL))
   | "split" =>
     let sh ← tok
     match dimOf sh with
@@ -159,7 +187,7 @@ def handle : P String := do
       let m ← meshP D
       let p ← graphP
       let b := fun (x : Bool) => if x then "1" else "0"
-      pure s!"WF {b m.consistent} {b (isPartition p)} {b (p.nImg == m.numCells)}"
+      pure s!"WF {b m.consistent} {b (isPartition p)} {b (p.nImg == m.numCells)} {b m.facetsOk}"
   | "p2l" =>
     let sh ← tok
     let n ← nat
